@@ -18,8 +18,9 @@ class Unexpected(Exception):
 
 
 class Decompiler:
-    def __init__(self, func, var_index, typed, cross_reg, max_nodes=20000):
+    def __init__(self, func, var_index, typed, cross_reg, max_nodes=20000, fun_index=None):
         self.f = func
+        self.fun_index = fun_index or {}    # callee name -> function number
         self.var_index = var_index        # name -> slot number
         self.typed = typed
         self.cross_reg = cross_reg        # depth -> register of a non-phi cross-block value
@@ -151,14 +152,21 @@ class Decompiler:
         items = []
         term = None
         for i in b:
-            if isinstance(i, (ir.Alloc, ir.AddressOf, ir.Phi, ir.Const, ir.Load, ir.Binop, ir.Unop, ir.Cast)):
+            if isinstance(i, (ir.Alloc, ir.AddressOf, ir.Phi, ir.Const, ir.Load, ir.Binop, ir.Unop, ir.Cast,
+                              ir.FunctionCall)):
                 continue
             if isinstance(i, ir.Store):
                 if isinstance(i.value, ir.Parameter):
                     continue
                 if i.address not in self.slot:
                     raise Unexpected('store to %s' % i.address)
-                if i.value in self.reg and isinstance(i.value, ir.Phi):
+                if isinstance(i.value, ir.FunctionCall):
+                    callee = i.value.callee.name
+                    if callee not in self.fun_index:
+                        raise Unexpected('call of %s' % callee)
+                    items.append(('call', self.slot[i.address], self.fun_index[callee],
+                                  [self.tree(a) for a in i.value.arguments]))
+                elif i.value in self.reg and isinstance(i.value, ir.Phi):
                     items.append(('get', self.slot[i.address], self.reg[i.value]))
                 else:
                     items.append(('st', self.slot[i.address], self.tree(i.value)))
@@ -187,6 +195,6 @@ class Decompiler:
         return code
 
 
-def decompile(func, var_index, typed, cross_reg):
-    d = Decompiler(func, var_index, typed, cross_reg)
+def decompile(func, var_index, typed, cross_reg, fun_index=None):
+    d = Decompiler(func, var_index, typed, cross_reg, fun_index=fun_index)
     return d.walk(func.entry, [])
